@@ -684,4 +684,35 @@ pub struct ServerPool {'''),
                             tls_certificate,''', new='''                            drain_tx,
                             false,
                             tls_certificate,'''),
+    # ------------------------------------------------------------------ C20
+    dict(id="c20-blocking-send", prop="C20", file="src/mirrors.rs", expect="C20-R1",
+         what="mirror hand-off waits for queue space",
+         old='''            match sender.try_send(immutable_bytes.clone()) {
+                Ok(_) => {}
+                Err(err) => {
+                    warn!("Failed to send bytes to a mirror channel {}", err);
+                }
+            }''', new='''            match sender.blocking_send(immutable_bytes.clone()) {
+                Ok(_) => {}
+                Err(err) => {
+                    warn!("Failed to send bytes to a mirror channel {}", err);
+                }
+            }'''),
+    dict(id="c20-mirror-partial", prop="C20", file="src/server.rs", expect="C20-R2",
+         what="only part of the request is mirrored",
+         old='''        self.mirror_send(messages);''', new='''        self.mirror_send(&BytesMut::from(&messages[..messages.len() / 2]));'''),
+    dict(id="c20-no-index-guard", prop="C20", file="src/pool.rs", expect="C20-R4",
+         what="every mirror attached to every server of the shard",
+         old='''                                if mirror_settings.mirroring_target_index != address_index {
+                                    continue;
+                                }''', new=''''''),
+    dict(id="c20-shared-cancel-map-and-pool-lookup", prop="C20", file="src/mirrors.rs", expect="C20-R3",
+         what="mirror task looks at the shared pools",
+         old='''            let pool = self.create_pool().await;
+            let address = self.address.clone();''', new='''            let pool = self.create_pool().await;
+            let _shared = crate::pool::get_all_pools();
+            let address = self.address.clone();'''),
+    dict(id="c20-unbounded-channel-size-from-config", prop="C20", file="src/mirrors.rs", expect="C20-R1",
+         what="mirror queue capacity no longer a constant",
+         old='''            let (bytes_tx, bytes_rx) = channel::<Bytes>(10);''', new='''            let (bytes_tx, bytes_rx) = channel::<Bytes>(addresses.len() * 1000);'''),
 ]
